@@ -143,10 +143,10 @@ int main(int argc, char** argv) {
   fbm.name = "TB_shared_readonly_document_with_map";
   fbm.group = "TBm";
   fc.name = "TC_shared_locked_allocator";
-  fc.count = (uint64_t)rounds * 4;
+  fc.count = (uint64_t)rounds * 9;
   fc.chunk = 1;
   fc.group = "TC";
-  fc.rule = "scenario C under TSan (built with SONIC_LOCKED_ALLOCATOR only): 2-4 threads x 50 Malloc/Realloc on one shared pool with a 64-byte chunk capacity; blocks must also be disjoint and intact";
+  fc.rule = "scenario C under TSan (built with SONIC_LOCKED_ALLOCATOR only): 2-4 threads x 50 Malloc/Realloc on one shared pool with a 64-byte chunk capacity, in 3 pool configurations (default; adaptive chunk policy; user buffer without base allocator, overflowing); blocks must also be disjoint and intact";
 
   vr::CheckFn check = [&](const vr::Family& f, uint64_t idx, vr::Ctx& ctx) {
     ctx.eval();
@@ -201,8 +201,10 @@ int main(int argc, char** argv) {
     {
 #ifdef SONIC_LOCKED_ALLOCATOR
       const int T = 2 + (int)(idx % 3);
-      if (ctx.want_sample) ctx.sample(std::to_string(T) + " threads");
-      MemoryPoolAllocator<> pool(64);
+      const int cfg = (int)((idx / 3) % 3);
+      static const char* cfgn[3] = {"default pool (simple policy, own base allocator), chunk 64", "adaptive chunk policy starting at 64", "pool over a 512-byte user buffer without base allocator (overflows into its own)"};
+      if (ctx.want_sample) ctx.sample(std::to_string(T) + " threads, " + cfgn[cfg]);
+      auto run_pool = [&](auto& pool) {
       Barrier bar(T);
       struct Blk {
         char* p;
@@ -249,6 +251,18 @@ int main(int argc, char** argv) {
           ctx.violation("overlap", "tsan_blocks_overlap", "C", "blocks overlap");
           break;
         }
+      };
+      if (cfg == 0) {
+        MemoryPoolAllocator<> pool(64);
+        run_pool(pool);
+      } else if (cfg == 1) {
+        MemoryPoolAllocator<SimpleAllocator, AdaptiveChunkPolicy> pool(64);
+        run_pool(pool);
+      } else {
+        alignas(16) static thread_local char ubuf[512];
+        MemoryPoolAllocator<> pool(ubuf, sizeof ubuf, 64, nullptr);
+        run_pool(pool);
+      }
 #else
       ctx.skip();
 #endif
